@@ -610,6 +610,15 @@ def gen_case(rng, tier="quick"):
                           "flag_corners": rng.random() < 0.75, "corner_order": rng.choice([4, 4, 3, 6]),
                           "graph": rng.random() < 0.5, "call": rng.choice(["run", "detect"])})
         session = {"other": other, "steps": steps}
+        # the caller moves the vertices of this mesh between two runs (same connectivity, new geometry): the later runs
+        # must classify the NEW geometry (nothing computed from the old coordinates may survive)
+        if normals is None and rng.random() < 0.5:
+            session["alt_coords"] = random_coords(rng, nv, faces)
+            on0 = [k for k, st in enumerate(steps) if st["on"] == 0]
+            if on0:
+                j = rng.choice(on0)
+                for k in on0:
+                    steps[k]["moved"] = k >= j
     if border_only:
         dets, session, normals, exact = [], None, None, False
     info["session"] = 0 if session is None else len(session["steps"])
